@@ -138,6 +138,9 @@ var c05Probes = []struct {
 	{"callee-loop-clobbers-caller-loopvar", []string{`func f() { for i = 2 { } }`, `for i = 3 { f(); println(i) }`}},
 	{"function-literal-in-counted-loop", []string{`for i = 2 { h = x => x + 1; println(h(i)) }`}},
 	{"loopvar-modified-in-loop", []string{`for i = 3 { i++; println(i) }`}},
+	{"non-integer-assigned-to-integer-parameter", []string{`func f(n) { n = 1.5; n }`, `println(f(1))`}},
+	{"integer-parameter-invisible-to-eval", []string{`func f(n) { eval("n") }`, `println(f(3))`}},
+	{"parameter-named-like-its-function", []string{`func f(f) { f + 1 }`, `println(f(3))`}},
 }
 
 func probeHistory(name string, inputs []string) *core.History {
